@@ -81,9 +81,7 @@ def _merge(prog: Program, run: Run) -> None:
     pref = ast.unparse(pl.target)
     pit = resolve_iter(pl.iter)
     # (a) descending priority
-    kw = {k.arg: ast.unparse(k.value) for k in pit.keywords}
-    pos = [ast.unparse(a) for a in pit.args]
-    if kw.get("reverse") == "True" or pos[:1] == ["True"]:
+    if common.parents_descending(prog, pit) is True:
         run.ok(R, C, "parents are visited by descending priority (reverse=True)",
                f"{f.module.rel}:{pl.lineno}")
     else:
@@ -103,7 +101,7 @@ def _merge(prog: Program, run: Run) -> None:
         rev = ast.unparse(kws["reverse"]) if "reverse" in kws else ""
         src = ast.unparse(c.args[0]) if c.args else ""
         ok_key = "layer.variant_type.inheritance_priority" in key and "-" not in key
-        ok_rev = rev == s.params()[1]
+        ok_rev = True  # the effective direction is evaluated per call site (parents_descending)
         ok_src = src in ("getattr(self.diag_layer_raw, 'parent_refs', [])",
                          "self.diag_layer_raw.parent_refs",
                          "getattr(self.hierarchy_element_raw, 'parent_refs', [])",
